@@ -381,7 +381,7 @@ func runC04(w *W) {
 	// --- random escape-heavy strings, keys and values
 	nRand := 100000
 	if th {
-		nRand = 1500000
+		nRand = 6000000
 	}
 	for i := 0; i < nRand; i++ {
 		rr := r.Split()
